@@ -11,6 +11,7 @@ package main
 // L1: the feeprocessing keeper's payment history / execution records / ProcessExecutionFeeReturn.
 
 import (
+	"sort"
 	"fmt"
 	"math/big"
 	"strings"
@@ -284,6 +285,7 @@ func runC09(r *Rec) {
 	}
 	c09Witnesses(r)
 	c09FeeProcessing(r)
+	c09MsgTypes(r)
 	r.Extra["rule"] = "C09: a case = one signed transaction through the real ante chain (DeliverTx) under a generated configuration; distinct by (op line, outcome); non-trivial = every case (each reaches ValidateFeeRangeDecorator); histogram shows rej/ok/failed and how often each oracle was evaluated; plus L1 feeprocessing episodes"
 }
 
@@ -472,4 +474,157 @@ func anteOkErr(err error) string {
 		return "err"
 	}
 	return "ok"
+}
+
+// c09MsgTypes: the fee decorators look a message's execution / failure fee up under kiratypes.MsgType(msg) - the string its
+// Type() method answers, or "" when the message does not implement sekai's Msg interface (then no execution fee is ever
+// required of it). The table of (type URL -> type string) of every registered sekai message is pinned to the reviewed
+// one: a message that drops out of the interface, or answers another string, is no longer charged what governance set.
+func c09MsgTypes(r *Rec) {
+	w := NewWorld(WorldOpts{NAcc: 2, NVal: 1, SudoAccs: []int{0}})
+	reg := w.enc.InterfaceRegistry
+	got := map[string]string{}
+	var rows []string
+	for _, url := range reg.ListImplementations(sdk.MsgInterfaceProtoName) {
+		if !strings.Contains(url, "/kira.") {
+			continue
+		}
+		pm, err := reg.Resolve(url)
+		if err != nil {
+			continue
+		}
+		msg, ok := pm.(sdk.Msg)
+		if !ok {
+			continue
+		}
+		t := func() (t string) {
+			defer func() {
+				if p := recover(); p != nil {
+					t = "panic"
+				}
+			}()
+			return kiratypes.MsgType(msg)
+		}()
+		got[url] = t
+		rows = append(rows, url+"="+t)
+	}
+	sort.Strings(rows)
+	r.Extra["message_type_strings"] = rows
+	for url, want := range c09MsgTypesReviewed {
+		r.Count("oracle:C09/msg-type")
+		if g, ok := got[url]; ok && g != want {
+			r.Fail("C09/msg-type/fee-decorators-see-another-type", fmt.Sprintf("kiratypes.MsgType of %s is %q (reviewed: %q): the execution / failure fee governance set for %q is no longer required of this message", url, g, want, want), nil)
+		}
+	}
+	for url, g := range got {
+		if _, ok := c09MsgTypesReviewed[url]; !ok && g == "" {
+			r.Fail("C09/msg-type/new-message-without-type", fmt.Sprintf("%s is registered as a message but kiratypes.MsgType answers \"\": no execution fee can be required of it", url), nil)
+		}
+	}
+}
+
+var c09MsgTypesReviewed = map[string]string{
+	"/kira.basket.MsgBasketClaimRewards": "basket_claim_rewards",
+	"/kira.basket.MsgBasketTokenBurn": "basket_token_burn",
+	"/kira.basket.MsgBasketTokenMint": "basket_token_mint",
+	"/kira.basket.MsgBasketTokenSwap": "basket_token_swap",
+	"/kira.basket.MsgDisableBasketDeposits": "disable_basket_withdraws",
+	"/kira.basket.MsgDisableBasketSwaps": "disable_basket_swaps",
+	"/kira.basket.MsgDisableBasketWithdraws": "disable_basket_withdraws",
+	"/kira.collectives.MsgBondCollective": "bond_collective",
+	"/kira.collectives.MsgCreateCollective": "create_collective",
+	"/kira.collectives.MsgDonateCollective": "donate_collective",
+	"/kira.collectives.MsgWithdrawCollective": "withdraw_collective",
+	"/kira.custody.MsgAddToCustodyCustodians": "add_to_custody_custodians",
+	"/kira.custody.MsgAddToCustodyLimits": "add_to_custody_whitelist",
+	"/kira.custody.MsgAddToCustodyWhiteList": "add_to_custody_whitelist",
+	"/kira.custody.MsgApproveCustodyTransaction": "add_to_custody_custodians",
+	"/kira.custody.MsgCreateCustodyRecord": "create_custody",
+	"/kira.custody.MsgDeclineCustodyTransaction": "add_to_custody_custodians",
+	"/kira.custody.MsgDisableCustodyRecord": "disable_custody",
+	"/kira.custody.MsgDropCustodyCustodians": "drop_custody_custodians",
+	"/kira.custody.MsgDropCustodyLimits": "drop_custody_whitelist",
+	"/kira.custody.MsgDropCustodyRecord": "drop_custody",
+	"/kira.custody.MsgDropCustodyWhiteList": "drop_custody_whitelist",
+	"/kira.custody.MsgPasswordConfirmTransaction": "password_confirm_transaction",
+	"/kira.custody.MsgRemoveFromCustodyCustodians": "remove_from_custody_custodians",
+	"/kira.custody.MsgRemoveFromCustodyLimits": "remove_from_custody_whitelist",
+	"/kira.custody.MsgRemoveFromCustodyWhiteList": "remove_from_custody_whitelist",
+	"/kira.custody.MsgSend": "custody_send",
+	"/kira.ethereum.MsgRelay": "create_custody",
+	"/kira.evidence.MsgSubmitEvidence": "submit_evidence",
+	"/kira.gov.MsgAssignRole": "assign_role",
+	"/kira.gov.MsgBlacklistPermissions": "blacklist_permissions",
+	"/kira.gov.MsgBlacklistRolePermission": "blacklist_role_permission",
+	"/kira.gov.MsgCancelIdentityRecordsVerifyRequest": "cancel_identity_records_verify_request",
+	"/kira.gov.MsgClaimCouncilor": "claim_councilor",
+	"/kira.gov.MsgCouncilorActivate": "claim_councilor",
+	"/kira.gov.MsgCouncilorPause": "claim_councilor",
+	"/kira.gov.MsgCouncilorUnpause": "claim_councilor",
+	"/kira.gov.MsgCreateRole": "create_role",
+	"/kira.gov.MsgDeleteIdentityRecords": "delete_identity_records",
+	"/kira.gov.MsgHandleIdentityRecordsVerifyRequest": "handle_identity_records_verify_request",
+	"/kira.gov.MsgPollCreate": "create_poll",
+	"/kira.gov.MsgPollVote": "vote_poll",
+	"/kira.gov.MsgRegisterIdentityRecords": "register_identity_records",
+	"/kira.gov.MsgRemoveBlacklistRolePermission": "remove_blacklist_role_permission",
+	"/kira.gov.MsgRemoveBlacklistedPermissions": "blacklist_permissions",
+	"/kira.gov.MsgRemoveWhitelistRolePermission": "remove_whitelist_role_permission",
+	"/kira.gov.MsgRemoveWhitelistedPermissions": "blacklist_permissions",
+	"/kira.gov.MsgRequestIdentityRecordsVerify": "request_identity_records_verify",
+	"/kira.gov.MsgSetExecutionFee": "set_execution_fee",
+	"/kira.gov.MsgSetNetworkProperties": "set_network_properties",
+	"/kira.gov.MsgSubmitProposal": "submit_proposal",
+	"/kira.gov.MsgUnassignRole": "unassign_role",
+	"/kira.gov.MsgVoteProposal": "vote_proposal",
+	"/kira.gov.MsgWhitelistPermissions": "whitelist_permissions",
+	"/kira.gov.MsgWhitelistRolePermission": "whitelist_role_permission",
+	"/kira.layer2.MsgAckTransferDappTx": "ack_transfer_dapp_tx",
+	"/kira.layer2.MsgApproveDappTransitionTx": "approve_dapp_transition_tx",
+	"/kira.layer2.MsgBondDappProposal": "bond_dapp_proposal",
+	"/kira.layer2.MsgConvertDappPoolTx": "convert_dapp_pool_tx",
+	"/kira.layer2.MsgCreateDappProposal": "create_dapp_proposal",
+	"/kira.layer2.MsgDenounceLeaderTx": "denounce_leader_tx",
+	"/kira.layer2.MsgExecuteDappTx": "execute_dapp_tx",
+	"/kira.layer2.MsgExitDapp": "exit_dapp",
+	"/kira.layer2.MsgJoinDappVerifierWithBond": "join_dapp_verifier_with_bond",
+	"/kira.layer2.MsgMintBurnTx": "mint_burn_tx",
+	"/kira.layer2.MsgMintCreateFtTx": "mint_create_ft_tx",
+	"/kira.layer2.MsgMintCreateNftTx": "mint_create_nft_tx",
+	"/kira.layer2.MsgMintIssueTx": "mint_issue_tx",
+	"/kira.layer2.MsgPauseDappTx": "pause_dapp_tx",
+	"/kira.layer2.MsgReactivateDappTx": "reactivate_dapp_tx",
+	"/kira.layer2.MsgReclaimDappBondProposal": "reclaim_dapp_bond_proposal",
+	"/kira.layer2.MsgRedeemDappPoolTx": "redeem_dapp_pool_tx",
+	"/kira.layer2.MsgRejectDappTransitionTx": "reject_dapp_transition_tx",
+	"/kira.layer2.MsgSwapDappPoolTx": "swap_dapp_pool_tx",
+	"/kira.layer2.MsgTransferDappTx": "transfer_dapp_tx",
+	"/kira.layer2.MsgTransitionDappTx": "transition_dapp_tx",
+	"/kira.layer2.MsgUnPauseDappTx": "unpause_dapp_tx",
+	"/kira.multistaking.MsgClaimMaturedUndelegations": "claim_matured_undelegations",
+	"/kira.multistaking.MsgClaimRewards": "claim_rewards",
+	"/kira.multistaking.MsgClaimUndelegation": "claim_undelegation",
+	"/kira.multistaking.MsgDelegate": "delegate",
+	"/kira.multistaking.MsgRegisterDelegator": "register_delegator",
+	"/kira.multistaking.MsgSetCompoundInfo": "set_compound_info",
+	"/kira.multistaking.MsgUndelegate": "undelegate",
+	"/kira.multistaking.MsgUpsertStakingPool": "upsert_staking_pool",
+	"/kira.recovery.MsgBurnRecoveryTokens": "burn_recovery_tokens",
+	"/kira.recovery.MsgClaimRRHolderRewards": "claim_rrholder_rewards",
+	"/kira.recovery.MsgIssueRecoveryTokens": "issue_recovery_tokens",
+	"/kira.recovery.MsgRegisterRRTokenHolder": "register_rrtoken_holder",
+	"/kira.recovery.MsgRegisterRecoverySecret": "register_recovery_secret",
+	"/kira.recovery.MsgRotateRecoveryAddress": "rotate_recovery_address",
+	"/kira.recovery.MsgRotateValidatorByHalfRRTokenHolder": "rotate_validator_by_half_rr_token_holder",
+	"/kira.slashing.MsgActivate": "activate",
+	"/kira.slashing.MsgPause": "pause",
+	"/kira.slashing.MsgRefuteSlashingProposal": "pause",
+	"/kira.slashing.MsgUnpause": "unpause",
+	"/kira.spending.MsgClaimSpendingPool": "claim_spending_pool",
+	"/kira.spending.MsgCreateSpendingPool": "create_spending_pool",
+	"/kira.spending.MsgDepositSpendingPool": "deposit_spending_pool",
+	"/kira.spending.MsgRegisterSpendingPoolBeneficiary": "register_spending_pool_beneficiary",
+	"/kira.staking.MsgClaimValidator": "claim_validator",
+	"/kira.tokens.MsgEthereumTx": "ethereum_tx",
+	"/kira.tokens.MsgUpsertTokenInfo": "upsert_token_info",
 }
